@@ -364,11 +364,17 @@ pub fn roundtrip_case(rng: &mut Rng, ctx: &mut Ctx, all_cuts: bool) {
                 }
             }};
         }
+        // "every way of cutting the byte stream into chunks": also chunks that are themselves
+        // non-contiguous buffers
+        let segmented = rng.chance(1, 4);
+        if segmented {
+            ctx.count("dec.segmented_data");
+        }
         if prost {
-            let out = decode_run(ProstCodec::<Msg, Msg>::raw_decoder(BufferSettings::new(bs, yt)), steps, dir, enc, None, 2, eager, false);
+            let out = crate::codec_drv::with_segmented(segmented, || decode_run(ProstCodec::<Msg, Msg>::raw_decoder(BufferSettings::new(bs, yt)), steps, dir, enc, None, 2, eager, false));
             judge!(out, pb_items, |a: &Msg, b: &Msg| a == b);
         } else {
-            let out = decode_run(RawDecoder { bs: (bs, yt) }, steps, dir, enc, None, 2, eager, false);
+            let out = crate::codec_drv::with_segmented(segmented, || decode_run(RawDecoder { bs: (bs, yt) }, steps, dir, enc, None, 2, eager, false));
             judge!(out, raw_items, |a: &Vec<u8>, b: &Vec<u8>| a == b);
         }
         if in_prefix && in_payload {
